@@ -37,9 +37,9 @@ fn small_xlsx() -> Vec<u8> {
     let mut c2 = xlsx::XCell::new(2, 1, xlsx::XVal::Num("3".into())); c2.formula = Some(xlsx::XFormula::SharedChild { si: 0 });
     let mut sh = xlsx::XSheet::new("S1", vec![xlsx::XCell::new(0, 0, xlsx::XVal::SharedStr(1)), c1, c2, xlsx::XCell::new(2, 2, xlsx::XVal::InlineStr(xlsx::XText::plain("i"))), xlsx::XCell::new(3, 0, xlsx::XVal::Bool(true)), xlsx::XCell::new(3, 1, xlsx::XVal::Err("#N/A".into()))]);
     sh.merges = vec!["A1:B1".into()];
-    sh.tables = vec![xlsx::XTable { name: "T".into(), display_name: "T".into(), rf: "A2:B4".into(), header_rows: None, totals_rows: Some(1), totals_row_shown: None, columns: vec!["a".into(), "b".into()] },
+    sh.tables = vec![xlsx::XTable { name: "T".into(), display_name: "T".into(), rf: "A2:B4".into(), header_rows: None, totals_rows: Some(1), totals_row_shown: None, columns: vec!["a".into(), "b".into()], extras: false },
         // a table lying beside the used cells (legal: its cells are simply empty)
-        xlsx::XTable { name: "Beside".into(), display_name: "Beside".into(), rf: "E1:F3".into(), header_rows: None, totals_rows: None, totals_row_shown: None, columns: vec!["e".into(), "f".into()] }];
+        xlsx::XTable { name: "Beside".into(), display_name: "Beside".into(), rf: "E1:F3".into(), header_rows: None, totals_rows: None, totals_row_shown: None, columns: vec!["e".into(), "f".into()], extras: false }];
     b.sheets = vec![sh, xlsx::XSheet::new("S2", vec![xlsx::XCell::new(0, 0, xlsx::XVal::Num("1".into()))])];
     b.defined_names = vec![("n".into(), "S1!$A$1".into())];
     b.date1904 = Some(false);
@@ -396,7 +396,10 @@ pub fn check(rep: &Report) {
         let res = format!("{dir}/res.{id}");
         let prog = format!("{dir}/prog.{id}");
         let _ = std::fs::write(&prog, [0u8; 17]);
-        let child = std::process::Command::new(&exe).args(["c06-worker", &tier, &start.to_string(), &end.to_string(), &res, &prog]).env_remove("VERIF_CRUMBS").stderr(std::process::Stdio::null()).spawn().expect("spawn worker");
+        let mut cmd = std::process::Command::new(&exe);
+        cmd.args(["c06-worker", &tier, &start.to_string(), &end.to_string(), &res, &prog]).env_remove("VERIF_CRUMBS").stderr(std::process::Stdio::null());
+        unsafe { use std::os::unix::process::CommandExt; cmd.pre_exec(|| { libc::prctl(libc::PR_SET_PDEATHSIG, libc::SIGKILL); Ok(()) }); }
+        let child = cmd.spawn().expect("spawn worker");
         W { child, end, res, prog, id }
     };
     let read_prog = |p: &str| -> (u64, u64, u8) { let b = std::fs::read(p).unwrap_or_default(); if b.len() < 17 { return (0, 0, 0); } (u64::from_le_bytes(b[..8].try_into().unwrap()), u64::from_le_bytes(b[8..16].try_into().unwrap()), b[16]) };
